@@ -7,7 +7,7 @@ HERE = os.path.dirname(os.path.dirname(os.path.abspath(__file__)))
 def main():
     print("| id | tier of last run | verdict | paths | distinct oracle keys | solver queries | solver s | cpu s | wall s | known findings hit |")
     print("|---|---|---|---|---|---|---|---|---|---|")
-    for f in sorted(glob.glob(os.path.join(HERE, "evidence", "C*.json"))):
+    for f in sorted(glob.glob(os.path.join(HERE, "evidence", "by-tier", "C*.json"))):
         e = json.load(open(f))
         c = e["coverage"]
         print("| %s | %s | %s | %s | %s | %s | %.0f | %.0f | %.0f | %s |" % (
